@@ -43,6 +43,15 @@ def w_matcher_counter(ctx):
     for rx in (r'^tokinizer::rule_tokinizer::find_match$', r'^tokinizer::dynamic_type_tokinizer::dynamic_type_tokinizer$', r'^types::find_location$'):
         b = ctx.facts.one(rx)
         locs = [l for l, n in b.names.items() if n == 'rule_token_index']
+        if not locs and rx.endswith('find_match$'):
+            # the scan is written differently (other names, a struct for its state): its protocol is what the matcher table
+            # (scv/matcher.py) tabulates
+            key = ('matcher', getattr(ctx, 'digest', None), ctx.cfg_name, ctx.tier)
+            if key not in _WALK:
+                _WALK[key] = _walk_matcher(ctx)
+            if _WALK[key][0]:
+                msgs.append(fn_key(b.path) + ' (matcher table)')
+                continue
         if not locs:
             return (False, '%s: counter rule_token_index not found' % fn_key(b.path))
         for l in locs:
@@ -154,7 +163,20 @@ def _walk_char_map(ctx):
     return ok, dict(getattr(sub, '_h5_visited', {})), 'on every walk of UiTokenCollection::new and get_position over lines of 0..%d characters of 1..4 bytes and every byte offset of the line this site is passed without unwinding' % getattr(sub, '_h5_kmax', 0)
 
 
-WALKERS = [(r'^formatter::format_number$', 'format_number', _walk_format_number),
+def _walk_matcher(ctx):
+    from ..report import Ctx
+    from ..matcher import matcher_table
+    sub = Ctx('C18', ctx.tier, ctx.facts, ctx.cg, ctx.config, ctx.repo, ctx.cfg_name)
+    sub.rule('Y7', 'pattern scan (walked for C01)', floor=1)
+    try:
+        ok = bool(matcher_table(sub, 'Y7')) and not sub.findings
+    except Exception:
+        ok = False
+    return ok, dict(getattr(sub, '_matcher_visited', {})), 'on every walk of rule_tokinizer and find_match over lines of up to four tokens and four patterns (%d cells) this site is passed without unwinding' % getattr(sub, '_matcher_cells', 0)
+
+
+WALKERS = [(r'^tokinizer::rule_tokinizer::(find_match|rule_tokinizer)$', 'matcher', _walk_matcher),
+           (r'^formatter::format_number$', 'format_number', _walk_format_number),
            (r'^<?token::ui_token::', 'char_map', _walk_char_map)]
 
 
@@ -164,7 +186,13 @@ def walk_discharge(ctx, ob):
     the machine evaluates the overflow flags and the bounds checks, and an unwrap of None ends a walk; every walk returns and
     the site is on at least one of them. A bounded argument (the shapes tabulated); the positions are sums and differences of
     the lengths varied, not of the contents."""
-    if ob.kind not in ('unwrap-option', 'overflow', 'index', 'vec-position'):
+    from ..facts import cond_infeasible
+    try:
+        if any(cond_infeasible(d, v) for (_, d, v) in ob.body.conditions(ob.bid)):
+            return ('dead', 'only reachable through a branch on a constant that is not taken (`if cfg!(..)` of a feature that is off)')
+    except Exception:
+        pass
+    if ob.kind not in ('unwrap-option', 'overflow', 'index', 'vec-position', 'bounds'):
         return None
     for rx, name, fn in WALKERS:
         if not re.search(rx, ob.body.path):
